@@ -279,7 +279,7 @@ pub struct DataSpec {
 
 pub fn data_spec() -> BoxedStrategy<DataSpec> {
     (
-        prop_oneof![10 => Just(0u8), 4 => Just(1u8), 2 => Just(2u8), 2 => Just(3u8), 4 => Just(4u8), 2 => Just(5u8), 1 => Just(6u8)],
+        prop_oneof![10 => Just(0u8), 4 => Just(1u8), 2 => Just(2u8), 2 => Just(3u8), 4 => Just(4u8), 2 => Just(5u8), 1 => Just(6u8), 3 => Just(7u8), 2 => Just(8u8), 2 => Just(9u8)],
         any::<u64>(),
     )
         .prop_map(|(mode, seed)| DataSpec { mode, seed })
@@ -351,6 +351,51 @@ impl DataSpec {
                     let mut s = vec![0u8; b];
                     let z = (64 * (1 + rng.below(3))).min(b);
                     rng.fill(&mut s[z..]);
+                    out.push(s);
+                }
+            }
+            // restricted byte values: every byte ANDed with one mask per data set (7-bit text, nibbles, single bits ...)
+            7 => {
+                const MASKS: [u8; 10] = [0x7F, 0x7F, 0x0F, 0xF0, 0x01, 0x80, 0x55, 0xFE, 0x3F, 0x03];
+                let m = MASKS[rng.below(MASKS.len())];
+                for _ in 0..k {
+                    let mut s = vec![0u8; b];
+                    rng.fill(&mut s);
+                    for x in s.iter_mut() {
+                        *x &= m;
+                    }
+                    out.push(s);
+                }
+            }
+            // tiny alphabet: 1..4 distinct byte values in the whole data set (constant shards included)
+            8 => {
+                let n = 1 + rng.below(4);
+                let alpha: Vec<u8> = (0..n).map(|_| rng.next() as u8).collect();
+                for _ in 0..k {
+                    let mut s = vec![0u8; b];
+                    for x in s.iter_mut() {
+                        *x = alpha[rng.below(n)];
+                    }
+                    out.push(s);
+                }
+            }
+            // symbols below 256 or multiples of 256: in the documented byte placement the 32 high (or the 32 low)
+            // bytes of every 64-byte block are zero, block by block
+            9 => {
+                let which = rng.below(3);
+                for _ in 0..k {
+                    let mut s = vec![0u8; b];
+                    rng.fill(&mut s);
+                    for slot in 0..b / 2 {
+                        let v = crate::refmodel::slot_get(&s, slot);
+                        let blk = slot / 32;
+                        let keep_low = match which {
+                            0 => true,
+                            1 => false,
+                            _ => blk % 2 == 0,
+                        };
+                        crate::refmodel::slot_set(&mut s, slot, if keep_low { v & 0x00FF } else { v & 0xFF00 });
+                    }
                     out.push(s);
                 }
             }
